@@ -30,6 +30,15 @@ def rec_lines(items, opts):
         tr = {'id': tid, 'kind': 'lines', 'inp': cps(text), 'keep': [], 'drop': [], 'modlines': 0, 'raised': False,
               'text': text, 'origin': origin, 'nontrivial': len(text) > 1, 'exc': ''}
         try:
+            # the caller owns the list it gets: editing it must not show in a later call with an equal string
+            for ke in (True, False):
+                first = parso.split_lines(text, keepends=ke)
+                saved = list(first)
+                first.append('edited by the caller')
+                del first[0]
+                again = parso.split_lines(str(text), keepends=ke)
+                if again != saved:
+                    raise AssertionError('split_lines result aliased with an earlier result (keepends=%s)' % ke)
             tr['keep'] = [cps(l) for l in parso.split_lines(text, keepends=True)]
             tr['drop'] = [cps(l) for l in parso.split_lines(text, keepends=False)]
             if opts.get('parse'):
